@@ -96,10 +96,10 @@ def _matches(rows, ref, tol=R.EXACT_TOL):
 PRECISE = 1e-6
 
 
-def _interval_match(cells, shares, ref, tol):
+def _interval_match(cells, shares, ref, tol, rtot=1.0):
     slack = (len(ref) + len(shares)) * tol
     tot = sum(shares)
-    if any(sh < -tol for sh in shares) or not abs(tot - 1.0) <= R.DENSE_TOL + slack or tot <= 0:
+    if any(sh < -tol for sh in shares) or not (1.0 - R.DENSE_TOL - slack <= tot <= rtot + R.DENSE_TOL + slack) or tot <= 0:
         return False
     d = {}
     for c, sh in zip(cells, shares):
@@ -209,9 +209,10 @@ def attribution(ev):
         rtot = sum(x['raw'] for x in ex['pieces'])
         ref = [(x['lat'], x['lon'], x['raw'] / rtot, x['first']) for x in ex['pieces']]
         neg = [sh for sh in shares if sh < -tol]
-        if tol <= PRECISE and _matches(rows, ref, tol) and not neg and abs(tot - 1.0) <= R.DENSE_TOL:
+        # total share: between 1 and the oracle's own map-line excess (5 % on a 90-degree leg)
+        if tol <= PRECISE and _matches(rows, ref, tol) and not neg and 1.0 - R.DENSE_TOL <= tot <= max(rtot, 1.0) + R.DENSE_TOL:
             continue
-        if tol > PRECISE and _interval_match(cells, shares, ref, tol):
+        if tol > PRECISE and _interval_match(cells, shares, ref, tol, max(rtot, 1.0)):
             continue
         f = None
         if _only_wrap_mismatches(rows, ref, nlat, nlon, tol):
